@@ -243,7 +243,7 @@ def to_numpy(array, allow_missing=True):
             return numpy.concatenate(tocat)
 
     elif isinstance(array, ak._util.virtualtypes):
-        return to_numpy(array.array, allow_missing=True)
+        return to_numpy(array.array, allow_missing=allow_missing)
 
     elif isinstance(array, ak._util.unknowntypes):
         return numpy.array([])
